@@ -169,6 +169,7 @@ def check(ctx, rep):
             rep.expect('R20.c', verdict, key, why, '%s: %s' % (f.path, why))
     if n_agg < 5:
         rep.bad('R20.c', 'sites', 'expected at least 5 helpers receiving aggregated Indexed tuples, found %d' % n_agg)
+    check_cross_crate_identity(rep, cli)
     # ---- R20.d
     fs = [f for f in fns if f.npath == 'crux_cli::codegen::format']
     ok = len(fs) == 1 and fs[0].locals[0].startswith('alloc::collections::btree::map::BTreeMap<alloc::string::String,')
@@ -187,6 +188,82 @@ def check(ctx, rep):
 
 
 OWNED = [('alloc::slice::<impl [T]>::to_owned', 0), ('alloc::borrow::ToOwned::to_owned', 0), ('alloc::slice::<impl [T]>::to_vec', 0)]
+
+
+PAIR_NODE_TYPES = ('crux_cli::codegen::node::ItemNode', 'crux_cli::codegen::node::SummaryNode', 'crux_cli::codegen::node::CrateNode',
+              'crux_cli::codegen::node::GlobalId')
+# pairwise predicates that need no crate-name comparison, with the reason
+CRATE_GUARD_EXCEPTIONS = {
+    'crux_cli::codegen::node::SummaryNode::in_same_module_as': 'compares the full item paths, whose first segment is the crate name',
+}
+
+
+def check_cross_crate_identity(rep, cli):
+    """R20.f: rustdoc numbers items per crate description (and `crate_id` is 0 for the local crate in every description), so two nodes
+    denote the same thing only if their crate NAMES agree.  Every pairwise predicate on the node types (a bool method taking another
+    node) can answer true only behind an equality of the two `crate_` names (or of the two whole GlobalIds)."""
+    rep.rule('R20.f', 'a pairwise node predicate answers true only behind an equality of the crate names (numeric rustdoc ids never identify across crates)', floor=8)
+    n = 0
+    for f in cli.built:
+        if f.kind != 'AssocFn' or f.j.get('exp') or not any(path_matches(f.assoc.get('self_adt'), t) for t in PAIR_NODE_TYPES):
+            continue
+        if f.locals[0] != 'bool' or f.argc < 2:
+            continue
+        if (f.assoc.get('trait') or '') and not path_matches(f.assoc.get('trait'), 'core::cmp::PartialEq'):
+            continue
+        others = [i for i in range(2, f.argc + 1) if any(t in f.locals[i] for t in PAIR_NODE_TYPES)]
+        if not others or not any(t in f.locals[1] for t in PAIR_NODE_TYPES):
+            continue
+        n += 1
+        key = '%s|crate-name-guard' % f.kpath
+        if f.npath in CRATE_GUARD_EXCEPTIONS:
+            rep.ok('R20.f', key, 'tabled: ' + CRATE_GUARD_EXCEPTIONS[f.npath])
+            continue
+
+        def side(op):
+            """(parameter index, reads the crate name or the whole global id) of a comparison operand"""
+            out = set()
+            for o in origins(f, op):
+                if o.kind == 'arg':
+                    suf = [t for t in o.suffix if t != '*']
+                    named = ('.crate_' in suf) or suf[-1:] == ['.id'] or (suf == [] and 'GlobalId' in f.locals[o.n])
+                    out.add((o.n, named))
+            return out
+        equal_edges = []
+        whole_return = False
+        for bb, t in f.calls('core::cmp::PartialEq::eq', 'core::cmp::PartialEq::ne'):
+            if len(t['args']) != 2:
+                continue
+            a, b = side(t['args'][0]), side(t['args'][1])
+            if not (a and b and all(nm for _, nm in a | b) and {i for i, _ in a} != {i for i, _ in b}):
+                continue
+            is_ne = last_seg(t['callee']) == 'ne'
+            if t['d']['l'] == 0 and not t['d']['p'] and not is_ne:
+                whole_return = True
+            for sb, st in f.terms('switch'):
+                if any(o.kind == 'call' and o.bb == bb and not o.suffix for o in origins(f, st['a'])):
+                    zero = [b2 for v, b2 in st['arms'] if v == 0]
+                    equal_edges += [(sb, x) for x in zero] if is_ne else [(sb, st['otherwise'])]
+        # delegation to another guarded predicate of the node types with the same operands counts as the guard
+        delegated = False
+        for bb, t in f.calls():
+            g = [h for h in cli.built if h.kind == 'AssocFn' and h.npath == norm(t.get('resolved') or t.get('callee') or '') and h.path != f.path and
+                 any(path_matches(h.assoc.get('self_adt'), ty) for ty in PAIR_NODE_TYPES) and h.locals[0] == 'bool']
+            if g and t['d']['l'] == 0 and not t['d']['p']:
+                delegated = True
+        non_false = []
+        for bb, i, st in f.stmts('assign'):
+            if st['d']['l'] == 0 and not st['d']['p'] and not (st['rv']['k'] == 'use' and st['rv']['a'].get('v') == 0 and st['rv']['a'].get('o') == 'const'):
+                non_false.append(bb)
+        for bb, t in f.calls():
+            if t['d']['l'] == 0 and not t['d']['p']:
+                non_false.append(bb)
+        guarded = whole_return or delegated or (bool(equal_edges) and all(b not in f.reachable([0], removed_edges=equal_edges) for b in non_false))
+        rep.expect('R20.f', guarded, key, 'true is reachable only behind an equality of the crate names / global ids',
+                   '%s can answer true without having compared the crate names of its two nodes: rustdoc ids (and crate_id, which is 0 for the '
+                   'local crate of every description) are per-description numbers, so items of different crates would be identified' % f.path)
+    if n < 8:
+        rep.bad('R20.f', 'sites', 'expected at least 8 pairwise node predicates, found %d' % n)
 
 
 def sorted_or_keyed(by_path, f, p, depth=0):
